@@ -31,6 +31,11 @@ func (c *notCond) string() string {
 	if strings.HasPrefix(next, "(") {
 		return fmt.Sprintf("not %s", c.notC.string())
 	}
+	if strings.HasPrefix(next, "\"") {
+		// The key is quoted and may contain spaces, so "not" cannot be placed
+		// behind it by splitting at spaces. Negate as a group instead.
+		return fmt.Sprintf("not (%s)", next)
+	}
 	splitted := strings.Split(next, " ")
 	if splitted[0] == "not" || (len(splitted) > 1 && splitted[1] == "not") {
 		// already negated: "not (...)" or "key not operator value".
